@@ -2,7 +2,8 @@ import TracklibVerif.Model.Graph
 /-! One `Network` object (`tracklib/core/network.py`) as a state machine: what a sequence of calls
 `addNode` / `addEdge` / `run_routing_forward` / `shortest_distance` (pair and list form, with or without an
 `output_dict`) / `all_shortest_distances` / `prepare` / `prepared_shortest_distance` /
-`has_prepared_shortest_distance` / `sub_network(…, "TOPOLOGIC")` does to the object and returns.
+`has_prepared_shortest_distance` / `sub_network(…, "TOPOLOGIC")` / `save_prep` + `load_prep` does to the object and returns
+(the file written by `save_prep` is taken to be read back unchanged by `load_prep`: numpy's pickle is not modelled).
 
 State carried between calls: the node table `NODES` (ids in insertion order), the edges, the routing flags of
 the `Node` objects (`poids`, `visite`, `antecedent`, `antecedent_edge` — written by the last search, *read by no
@@ -67,6 +68,7 @@ inductive Op (W : Type) where
   | prepared (s t : Nat)
   | hasPrepared (s t : Nat)
   | sub (s : Nat) (cut : Option W)                                  -- `sub_network(s, cut, "TOPOLOGIC")`
+  | saveLoad                                                        -- `save_prep(f); load_prep(f)`: DISTANCES through a file
 
 inductive Out (W : Type) where
   | unit
@@ -131,6 +133,10 @@ def exec (σ : Sess W) : Op W → Sess W × Out W
       ({ σ with flags := r.1 },
        .subnet (es.foldl (fun o e => addNodeTo (addNodeTo o e.src) e.tgt) []) (es.map (·.id)))
     else (σ, .err)
+  | .saveLoad =>
+    match σ.prep with
+    | none => (σ, .err)                 -- `save_prep` prints an error and exits
+    | some _ => (σ, .unit)              -- the dictionary read back is the dictionary written
 
 /-- a sequence of calls on one object: what each call returned -/
 def runOps (σ : Sess W) : List (Op W) → List (Out W)
